@@ -113,6 +113,22 @@ def cc_fold(ctx, results, jobs):
                                   {"count": len(rej), "first": {"spec": j[0], "seed": r["seed"], "preempt": r["preempt"], "verdict": v}})
 
 
+def api_fold(ctx, results, jobs):
+    """tie of the L7 model of the YncaApi program: every eligible run of initialize() must be a run of the model with the model's key list
+    (monitor name "APIrun" must have been requested)"""
+    vs = [(j, r, r.get("api") or {"api": "SKIP", "why": "no verdict"}) for j, r in zip(jobs, results)]
+    for _, _, v in vs:
+        ctx.count("l7:" + v["api"] + (":" + str(v.get("why")) if v["api"] == "SKIP" else (":" + str(v.get("outcome")) if v["api"] == "ACCEPT" else "")))
+    ctx.cov["l7_runs_executed_by_api_model"] = ctx.cov.get("l7_runs_executed_by_api_model", 0) + sum(1 for _, _, v in vs if v["api"] == "ACCEPT")
+    ctx.cov["l7_objects_constructed_in_model_order"] = ctx.cov.get("l7_objects_constructed_in_model_order", 0) + sum(v.get("objects", 0) for _, _, v in vs if v["api"] == "ACCEPT")
+    rej = [(j, r, v) for j, r, v in vs if v["api"] == "REJECT"]
+    ctx.cov["l7_runs_differing_from_api_model"] = ctx.cov.get("l7_runs_differing_from_api_model", 0) + len(rej)
+    if rej and not ctx.violations:
+        j, r, v = rej[0]
+        ctx.correspondence_broken("L7 model of YncaApi.initialize(): a real run is not a run of the model, or leaves other subunit keys",
+                                  {"count": len(rej), "first": {"spec": j[0], "seed": r["seed"], "preempt": r["preempt"], "verdict": v}})
+
+
 def run_systematic(ctx, specs, mons, depth, label="", max_runs=20000):
     """exhaustive exploration of every schedule within `depth` deviations from the canonical one, per small scenario"""
     total = 0
